@@ -2,10 +2,15 @@
 
 
 class Clause:
-    __slots__ = ('label', 'text', 'kind', 'props')
+    __slots__ = ('label', 'text', 'kind', 'props', 'carve')
 
-    def __init__(self, label, text, kind='A', props=()):
+    def __init__(self, label, text, kind='A', props=(), carve=None):
         self.label, self.text, self.kind, self.props = label, text, kind, tuple(props)
+        self.carve = carve      # (finding id, hypothesis text): the clause is known to fail outside the hypothesis
+
+    def outside(self, finding, hypothesis):
+        """known finding: the clause is proved under `hypothesis`; its unrestricted form is tracked as the finding"""
+        return Clause(self.label, self.text, self.kind, self.props, (finding, hypothesis))
 
     def __repr__(self):
         return '%s:%s' % (self.label, self.text)
